@@ -27,7 +27,11 @@ def normalize(x: T) -> T:
             replace(
                 x,
                 _n_args_override=None,
-                _line_offsets_override=tuple(),
+                # Entries which move the line (and move it back) at one offset are kept:
+                # the interpreter reports a line event for each of them when tracing
+                _line_offsets_override=tuple(
+                    o for o in x._line_offsets_override if o != 0
+                ),
                 arg=normalize(x.arg),
             ),
         )
